@@ -120,7 +120,12 @@ pub fn main_worker(args: &[String]) {
     let of: u64 = arg(args, "--of").and_then(|s| s.parse().ok()).unwrap_or(1);
     let scale: f64 = arg(args, "--scale").and_then(|s| s.parse().ok()).unwrap_or(1.0);
     let budget_s: f64 = arg(args, "--budget-s").and_then(|s| s.parse().ok()).unwrap_or(1e9);
-    std::panic::set_hook(Box::new(|_| {}));
+    // panics of simulated threads are part of the runs; a panic of the harness's own thread is a bug
+    std::panic::set_hook(Box::new(|info| {
+        if std::thread::current().name() != Some("sim") {
+            eprintln!("HARNESS-PANIC {info}");
+        }
+    }));
     let known = load_known();
     let start = Instant::now();
     let out = std::io::stdout();
